@@ -543,7 +543,7 @@ func main() {
 		cq.LoadReplay(f, &c)
 		set.Cases = append(set.Cases, runCase(c, &fails).toCase("corpus"))
 	}
-	per := o.Scale(160, 2500)
+	per := o.Scale(160, 1200)
 	if o.N > 0 { // -n is a total case count (search campaigns)
 		per = 1 + o.N/len(quickComps)
 	}
